@@ -161,6 +161,21 @@ Section Spec.
 
   Definition sp_handler_out : list dp_ev := dp_invoke cfg h mc sp_req' sp_target.
 
+  (* The statement says "with the request's options".  libcoap hands the handler the options
+     after two edits (sp_adjusted); the relation accepts the unedited list and each edit alone
+     as well. *)
+  Definition sp_hop_dec (o : list opt) : list opt :=
+    match dp_find DP_HOP_LIMIT o with
+    | Some v => dp_update DP_HOP_LIMIT (dp_encode (dp_decode v - 1)) o
+    | None => o
+    end.
+  Definition sp_views : list (list opt) :=
+    [sp_adjusted; opts; sp_fix_block2; sp_hop_dec opts; sp_hop_dec sp_fix_block2].
+  Definition sp_req_with (o : list opt) : msg :=
+    mkMsg ty code (m_mid req) (m_token req) o (m_payload req).
+  Definition sp_handler_outs : list (list dp_ev) :=
+    map (fun o => dp_invoke cfg h mc (sp_req_with o) sp_target) sp_views.
+
   Definition dp_allowed_outs : list (list dp_ev) :=
     if negb ((ty =? NR_CON) || (ty =? NR_NON)) then [[]]          (* ACK, RST: never answered *)
     else if dp_bad_class code then sp_reject
@@ -172,18 +187,20 @@ Section Spec.
       (if mc && (ty =? NR_CON) then [[]] else []) ++
       (if (ty =? NR_NON) && sp_bad_options then sp_reject else []) ++
       flat_map (fun e => if sp_applies e then sp_emit e else []) dp_all_errs ++
-      (if sp_blocked then [] else [sp_handler_out]).
+      (if sp_blocked then [] else sp_handler_outs).
 
   Definition dp_allowed (out : list dp_ev) : Prop := In out dp_allowed_outs.
 End Spec.
 
 (* what the model does not describe: Proxy-Uri with a proxy resource (URI splitting is C16's
    subject), a handler that answers 5.08 itself (proxy loop detection of coap_send_internal),
-   and the built-in /.well-known/core answer to a request with a Block2 option (block-wise) *)
+   the built-in /.well-known/core answer to a request with a Block2 option and an Observe
+   registration with a Block2 / Q-Block2 option (block-wise) *)
 Definition dp_in_scope (cfg : dp_cfg) (h : dp_hreq -> dp_hresp) (req : msg) : Prop :=
   (sp_has_proxy cfg = true -> dp_has DP_PROXY_URI (m_opts req) = false) /\
   (forall i, hr_code (h i) <> 168) /\
-  (dp_has DP_BLOCK2 (m_opts req) = true -> sp_target cfg req <> TWellKnown).
+  (dp_has DP_BLOCK2 (m_opts req) = true -> sp_target cfg req <> TWellKnown) /\
+  dp_observe (sp_target cfg req) (sp_req' cfg req) <> ObsBlocked.
 
 Definition dp_txs (out : list dp_ev) : list msg :=
   flat_map (fun e => match e with EvTx _ m => [m] | _ => [] end) out.
